@@ -73,7 +73,7 @@ CHECKS = {
         design="6/C06"),
     "C07": dict(
         technique="Lean 4 proof (object layer: an estimator with supported state round-trips, arbitrarily nested) + estimator-zoo oracle (state comparator, bitwise method outputs, default-trust census)",
-        text="state_preserved / composition_preserved are corollaries of the C05 round trip for obj nodes; all_estimators() unfitted, a seeded subset fitted (thorough: all, with hyper-parameters from _parameter_constraints), ten compositions; names reported untrusted must not belong to a documented family.",
+        text="PARTIAL (scikit-learn's numerics are outside any model; the theorems cover the object layer only). state_preserved / composition_preserved are corollaries of the C05 round trip for obj nodes; all_estimators() unfitted, a seeded subset fitted (thorough: all, with hyper-parameters from _parameter_constraints), ten compositions; names reported untrusted must not belong to a documented family.",
         note="PARTIAL by nature: scikit-learn's numerical behaviour is outside any Lean model; 'equal state => identical predictions' is a contract exercised on the zoo. Trusted: Lean kernel, comparator, family predicates.",
         design="6/C07"),
     "C12": dict(
@@ -83,7 +83,7 @@ CHECKS = {
         design="6/C12"),
     "C16": dict(
         technique="Lean 4 proof (statement skeleton of skops.cli._update regenerated from the source by a translator and interpreted over a file-system model: decision table, rewrite frame, no residue, crash safety for every prefix of the operation trace and every chunking of the writes) + traced and killed runs of the real CLI",
-        text="decision_untouched / both_flags_error / rewritten / input_untouched / crash_safe quantify over every configuration (paths, flags, protocols), file system state and crash point of the model; skeleton_inner/skeleton_main check by rfl that the program the lemmas are about is the translation of the current source; the real CLI is run in forked children over protocol x output form x inplace x pre-existing destination x TMPDIR file system, its audit-hook operation trace, outcome and final file set are compared with the model, and it is killed at every file operation and in the middle of every write.",
+        text="PARTIAL with respect to crash points (proved for the operation model under the POSIX rename contract; real kills are sampled). decision_untouched / both_flags_error / rewritten / input_untouched / crash_safe quantify over every configuration (paths, flags, protocols), file system state and crash point of the model; skeleton_inner/skeleton_main check by rfl that the program the lemmas are about is the translation of the current source; the real CLI is run in forked children over protocol x output form x inplace x pre-existing destination x TMPDIR file system, its audit-hook operation trace, outcome and final file set are compared with the model, and it is killed at every file operation and in the middle of every write.",
         note="PARTIAL with respect to 'dies at any moment': proved for the operation model under the POSIX rename contract; power-loss durability, path components ./.. and symlinks, permissions and full disks are outside the model (../ paths are exercised on the implementation). Trusted: Lean kernel; translate/skeleton.py (unknown statements become `.unknown`, which no theorem survives); fscheck tracer; comparator. The defects found here were repaired (fixed:b25e65d).",
         design="6/C16"),
     "C17": dict(
@@ -98,12 +98,12 @@ CHECKS = {
         design="6/C18"),
     "C19": dict(
         technique="Lean 4 proof (PARTIAL: the io model is total on every JSON value; the audit walk's in-progress guard terminates on every finite graph; explicit exponential cost family) + schema-level outcome correspondence + sandboxed mutation runs with wall-clock limit",
-        text="load_total / cycle_guard_terminates / audit_exponential; the model's verdict is compared with the implementation on the adversarial archive grammar; byte-, member- and schema-level mutants (single and stacked) of zoo and grammar archives run get_untrusted_types, visualize and loads in forked workers: exit status, exception class, 20 s limit, cwd/environ/sys.path/umask/global RNG/files before vs after; the visit count of the real audit on the evil(n) family is compared with the model (equal => the known finding is printed).",
+        text="PARTIAL (schema level only; byte-level corruption and native parsers are sampled in sandboxed workers). load_total / cycle_guard_terminates / audit_exponential; the model's verdict is compared with the implementation on the adversarial archive grammar; byte-, member- and schema-level mutants (single and stacked) of zoo and grammar archives run get_untrusted_types, visualize and loads in forked workers: exit status, exception class, 20 s limit, cwd/environ/sys.path/umask/global RNG/files before vs after; the visit count of the real audit on the evil(n) family is compared with the model (equal => the known finding is printed).",
         note="PARTIAL: byte-level zip corruption and native parsers (np.load, load_npz, Cython __setstate__) cannot be expressed in the Lean model and are only sampled. Known finding: exponential audit on nested shared ids ('terminate promptly' is false for that family). Trusted: Lean kernel; worker sandbox; mutators.",
         design="6/C19"),
     "C20": dict(
         technique="Lean 4 proof (PARTIAL: frame model — steps that write only their own object's state are history- and schedule-independent, instantiated with the card and io models; negation witness for a memoising step) + frame facts regenerated from the source by a syntactic translator + fresh-process vs sequenced vs threaded runs",
-        text="history_independent / first_or_later / schedule_independent (Conc/Frame.lean) for every history and schedule; cards_independent and io_call_history_free instantiate them with Card.step and the io model; frame_facts_hold (by decide) on facts re-derived from every non-test module (no global statements, no writes to module-level containers or class attributes in functions, no mutable defaults, no process-state writes, contexts per call, no function-level caches); every call is executed once as the only call of a fresh interpreter and compared with shuffled in-process sequences and 8-thread runs at a 1 microsecond switch interval; module-state digest before/after.",
+        text="PARTIAL (interleavings of frame-respecting steps are proved; real CPython schedules are sampled). history_independent / first_or_later / schedule_independent (Conc/Frame.lean) for every history and schedule; cards_independent and io_call_history_free instantiate them with Card.step and the io model; frame_facts_hold (by decide) on facts re-derived from every non-test module (no global statements, no writes to module-level containers or class attributes in functions, no mutable defaults, no process-state writes, contexts per call, no function-level caches); every call is executed once as the only call of a fresh interpreter and compared with shuffled in-process sequences and 8-thread runs at a 1 microsecond switch interval; module-state digest before/after.",
         note="PARTIAL: real CPython interleavings are sampled, not enumerated; the theorem is conditional on the frame hypothesis, which is established syntactically and sampled dynamically. Trusted: Lean kernel; translate/frame.py; comparator; sklearn's HTML id counter is normalised.",
         design="6/C20"),
 
